@@ -40,7 +40,7 @@ Fifth round: C19.3 the partition record is read from the admin store at every re
 Sixth round: C19.3 the id the listing decodes from a DN is built like the id of the request (tenant order, separators; shared with C15.5).
 Seventh round: C19.2 Admin.get lets 'no such object' escape (the API turns exactly that into a zero-capacity partition); C19.3 the reservation being replaced is excluded in both accountings, overall and per trait.
 Eighth round: C19.3 the assignment operations write only the `assignments` attribute of the shared cell-allocation record.
-Ninth round: C19.1 CellAllocation.from_entry gives cpu, memory and disk each its default under the test that that key is missing; C19.5 cpu_units tests the percent suffix on the stripped value.
+Ninth round: C19.1 CellAllocation.from_entry gives cpu, memory and disk each its default under the test that that key is missing; C19.5 cpu_units tests the percent suffix on the stripped value. C19.3 the record handed to _check_capacity is the record handed to the admin write of the same operation (F23: the update checked the bare request and wrote the merge; repaired in /repo).
 Does NOT decide the sums over arbitrary reservation sets (arithmetic).
 """
 
@@ -239,13 +239,27 @@ def _check_before_write(ctx, mod):
             # whatever the locals are called: (second, first) piece of the
             # rsrc_id split and the request itself
             pid, preq = func.params()[:2]
-            ok = [K.rtxt(func, a) for a in call.args] == [
-                "%s.rsplit('/', 1)[1]" % pid, "%s.rsplit('/', 1)[0]" % pid,
-                preq]
+            third = call.args[2] if len(call.args) > 2 else None
+            merged = False
+            if isinstance(third, ast.Name) and third.id != preq:
+                # the stored record the request was merged into, on every
+                # path to the check
+                merges = [n for n, c in K.nodes_calling(
+                    graph, lambda c, t=third.id: K.is_meth(c, 'update') and
+                    K.recv_text(c) == t and len(c.args) == 1 and
+                    N.txt(c.args[0]) == preq)]
+                merged = bool(merges) and K.guarded_by(
+                    graph, node, lambda e: e.src in merges and
+                    e.kind != 'exc')
+            ok = [K.rtxt(func, a) for a in call.args[:2]] == [
+                "%s.rsplit('/', 1)[1]" % pid,
+                "%s.rsplit('/', 1)[0]" % pid] and third is not None and (
+                    K.rtxt(func, third) == preq or merged)
             split = True
             ctx.ob('C19.3', func, node, ok and split,
-                   'checked with (cell, allocation, request) from the '
-                   'rsrc_id split', construct='_check_capacity arguments '
+                   'checked with (cell, allocation) from the rsrc_id split '
+                   'and the request - or the stored record the request was '
+                   'merged into', construct='_check_capacity arguments '
                                               'in %s' % name)
     cparams = cap.params()
     ctx.require(len(cparams) >= 3, 'parameters of _check_capacity',
@@ -653,6 +667,56 @@ def _assignment_write_scope(ctx):
                 '(found %d)' % sites, rule='C19.3')
 
 
+def _checked_is_written(ctx):
+    """C19.3: the reservation that is checked is the reservation that is
+    stored.  An update merges the request into the stored record and writes
+    the merge; what the request leaves out - the traits of the reservation,
+    which the command line never sends for an existing one - stays in force,
+    so the limits have to be checked on the merge, not on the request: the
+    object handed to _check_capacity is the object handed to the admin
+    write in the same operation (F23: the update checked the bare request,
+    and a reservation with a limited trait could be raised past the limit of
+    that trait)."""
+    mod = ctx.index.module(API)
+    sites = 0
+
+    def visit(node):
+        nonlocal sites
+        for child in ast.iter_child_nodes(node):
+            if isinstance(child, (ast.FunctionDef, ast.AsyncFunctionDef)):
+                own = [c for c in ast.walk(child) if isinstance(c, ast.Call)]
+                # calls of this function only (not of functions nested in it)
+                inner = set(id(c) for f in ast.walk(child)
+                            if f is not child and isinstance(
+                                f, (ast.FunctionDef, ast.AsyncFunctionDef))
+                            for c in ast.walk(f) if isinstance(c, ast.Call))
+                own = [c for c in own if id(c) not in inner]
+                checks = [c for c in own if isinstance(c.func, ast.Name) and
+                          c.func.id == '_check_capacity' and len(c.args) == 3]
+                writes = [c for c in own if isinstance(
+                    c.func, ast.Attribute) and c.func.attr in (
+                        'update', 'create') and len(c.args) == 2 and
+                          'cell_alloc' in N.txt(c.func.value)]
+                if checks and writes:
+                    for chk in checks:
+                        sites += 1
+                        same = all(N.txt(w.args[1]) == N.txt(chk.args[2])
+                                   for w in writes)
+                        ctx.ob('C19.3', mod.name, chk, same,
+                               'the record checked (%s) is the record '
+                               'written (%s)' % (
+                                   N.txt(chk.args[2]),
+                                   sorted(set(N.txt(w.args[1])
+                                              for w in writes))),
+                               construct='checked record is the written '
+                                         'record in %s' % child.name,
+                               file=mod.rel)
+            visit(child)
+    visit(mod.tree)
+    ctx.require(sites >= 2, 'reservation operations that check and write '
+                '(found %d)' % sites, rule='C19.3')
+
+
 def _record_defaults(ctx):
     """C19.1: a reservation record that lacks one of the sizes counts as
     zero in that dimension only: CellAllocation.from_entry gives each of
@@ -739,6 +803,7 @@ def _cpu_spelling(ctx):
 
 
 def check(ctx):
+    _checked_is_written(ctx)
     _record_defaults(ctx)
     _cpu_spelling(ctx)
     _assignment_write_scope(ctx)
@@ -786,6 +851,9 @@ def check(ctx):
 _A = 'lib/python/treadmill/api/allocation.py'
 
 MUTANTS = [
+    ('revert-F23-update-checks-the-request', [(_A, """                    _check_capacity(cell, allocation, cell_alloc)
+""", """                    _check_capacity(cell, allocation, rsrc)
+""")], 'C19.3'),
     ('traits-disk-subtracts-cpu', [(_A, """                free[trait]['disk'] -= utils.size_to_bytes(alloc['disk'])
 """, """                free[trait]['disk'] -= utils.size_to_bytes(alloc['cpu'])
 """)], 'C19.1'),
@@ -803,13 +871,11 @@ MUTANTS = [
 """, """    if utils.size_to_bytes(request['memory']) > limit['memory']:
         raise exc.TreadmillError(
 """)], 'C19.2'),
-    ('update-check-conditional', [(_A, """                    allocation, cell = rsrc_id.rsplit('/', 1)
-                    _check_capacity(cell, allocation, rsrc)
-                    admin_cell_alloc = _admin_cell_alloc()
-""", """                    allocation, cell = rsrc_id.rsplit('/', 1)
-                    if 'cpu' in rsrc:
-                        _check_capacity(cell, allocation, rsrc)
-                    admin_cell_alloc = _admin_cell_alloc()
+    ('update-check-conditional', [(_A, """                    _check_capacity(cell, allocation, cell_alloc)
+                    admin_cell_alloc.update([cell, allocation], cell_alloc)
+""", """                    if 'cpu' in rsrc:
+                        _check_capacity(cell, allocation, cell_alloc)
+                    admin_cell_alloc.update([cell, allocation], cell_alloc)
 """)], 'C19.3'),
     ('create-writes-before-check', [(_A, """                    _check_capacity(cell, allocation, rsrc)
                     if 'rank' not in rsrc:
